@@ -5,6 +5,7 @@ import (
 	"go/ast"
 	"go/parser"
 	"go/token"
+	"os"
 	"strconv"
 	"strings"
 	"sync"
@@ -30,7 +31,7 @@ func (c15) Info() core.Info {
 			"WithReportValidationErrors, WithFailOnValidationError, both}. Reporting == default in success and full snapshot; fail-mode success => default success with equal snapshot; " +
 			"without base, fail-mode succeeds <=> reporting mode succeeds with an empty ValidationErrors(); every error returned by the default and reporting parsers has a documented " +
 			"errors.Type and errors.Failure = true; every entry of ValidationErrors() on a successfully parsed URL has Failure = false and a documented type; every error returned in " +
-			"fail mode has a documented non-empty type. The documented set is read at run time from the constant declarations of /repo/errors/codes.go. " +
+			"fail mode has a documented non-empty type. The documented set is read at run time from the constant declarations of package errors (/repo/errors/*.go). " +
 			"For a quarter of the inputs every parse is made twice and the second result judged (parsers that remember their last input); 'shared-base': several references are resolved against ONE reporting-mode base value, " +
 			"after which the entries recorded on an earlier accepted result and on the base must be unchanged and non-fatal. Non-trivial: at least one configuration produced a URL or a validation entry; distinct by (input, base).",
 		Assumptions: []string{"errors returned in fail mode may carry Failure=false (the option exists to return non-fatal validation errors)", "agreement of the validation errors with the standard's is not demanded"},
@@ -48,27 +49,46 @@ var (
 
 func documentedTypes() (map[string]bool, error) {
 	documentedOnce.Do(func() {
-		fset := token.NewFileSet()
-		f, err := parser.ParseFile(fset, core.RepoDir()+"/errors/codes.go", nil, 0)
+		// every string constant declared in the non-test files of package errors (today all of them
+		// are in codes.go; reading the whole package keeps the check indifferent to where they live)
+		dir := core.RepoDir() + "/errors"
+		entries, err := os.ReadDir(dir)
 		if err != nil {
 			documentedErr = err
 			return
 		}
 		documented = map[string]bool{}
-		ast.Inspect(f, func(n ast.Node) bool {
-			vs, ok := n.(*ast.ValueSpec)
-			if !ok {
-				return true
+		fset := token.NewFileSet()
+		for _, e := range entries {
+			name := e.Name()
+			if e.IsDir() || !strings.HasSuffix(name, ".go") || strings.HasSuffix(name, "_test.go") {
+				continue
 			}
-			for _, v := range vs.Values {
-				if bl, ok := v.(*ast.BasicLit); ok && bl.Kind == token.STRING {
-					if s, err := strconv.Unquote(bl.Value); err == nil {
-						documented[s] = true
+			f, err := parser.ParseFile(fset, dir+"/"+name, nil, 0)
+			if err != nil {
+				documentedErr = err
+				return
+			}
+			for _, d := range f.Decls {
+				gd, ok := d.(*ast.GenDecl)
+				if !ok || gd.Tok != token.CONST {
+					continue
+				}
+				for _, sp := range gd.Specs {
+					vs, ok := sp.(*ast.ValueSpec)
+					if !ok {
+						continue
+					}
+					for _, v := range vs.Values {
+						if bl, ok := v.(*ast.BasicLit); ok && bl.Kind == token.STRING {
+							if s, err := strconv.Unquote(bl.Value); err == nil {
+								documented[s] = true
+							}
+						}
 					}
 				}
 			}
-			return true
-		})
+		}
 	})
 	return documented, documentedErr
 }
@@ -214,7 +234,7 @@ func (c15) sharedBase(ctx *core.Ctx, cs *core.Case, doc map[string]bool) {
 func (m c15) Exec(ctx *core.Ctx, cs *core.Case) {
 	doc, derr := documentedTypes()
 	if derr != nil || len(doc) < 10 {
-		ctx.Broken("cannot read the documented error types from /repo/errors/codes.go")
+		ctx.Broken("cannot read the documented error types from the constant declarations of /repo/errors/*.go")
 		return
 	}
 	if cs.Check == "shared-base" {
